@@ -249,6 +249,9 @@ class WSStream:
             await self._handle_events()
         elif isinstance(event, StreamClosed):
             self.closed = True
+            if self.state == ASGIWebsocketState.HANDSHAKE and hasattr(self, "scope"):
+                # The client has gone before the handshake was answered
+                await self.config.log.access(self.scope, None, time() - self.start_time)
             if self.app_put is not None:
                 if self.state in {ASGIWebsocketState.HTTPCLOSED, ASGIWebsocketState.CLOSED}:
                     code = CloseReason.NORMAL_CLOSURE.value
